@@ -82,7 +82,7 @@ def fwd_case(draw, max_tasks=8, fixed=True, late_clock=True, balance=None, taskd
     if draw(st.integers(0, 5)) == 0:
         spec['subclass'] = True
     return dict(dir='fwd', spec=spec, res=rs, P=iso(P), N=iso(N), start_default=sd, balance=draw(st.booleans()) if balance is None else balance,
-                dflt=draw(st.sampled_from([0, 0, 4])), reuse=draw(st.integers(0, 2)) == 0, wrap=draw(st.sampled_from([0, 0, 0, 1, 2 if taskdep else 1])),
+                dflt=draw(st.sampled_from([0, 0, 4])), reuse=draw(st.integers(0, 2)) == 0, wrap=draw(st.sampled_from([0, 0, 0, 1, 2 if taskdep else 1] + ([3] if taskdep == 'share' else []))),
                 res_form=draw(st.sampled_from(RES_FORMS)), balance_int=draw(st.integers(0, 3)) == 0)
 
 
@@ -104,7 +104,7 @@ def bwd_case(draw, max_tasks=8, balance=None, taskdep=False, **kw):
     if draw(st.integers(0, 5)) == 0:
         spec['subclass'] = True
     return dict(dir='bwd', spec=spec, res=rs, P=iso(E), N=iso(datetime(2020, 1, 1)), balance=draw(st.booleans()) if balance is None else balance,
-                dflt=draw(st.sampled_from([0, 0, 4])), reuse=draw(st.integers(0, 2)) == 0, wrap=draw(st.sampled_from([0, 0, 0, 1, 2 if taskdep else 1])),
+                dflt=draw(st.sampled_from([0, 0, 4])), reuse=draw(st.integers(0, 2)) == 0, wrap=draw(st.sampled_from([0, 0, 0, 1, 2 if taskdep else 1] + ([3] if taskdep == 'share' else []))),
                 res_form=draw(st.sampled_from(RES_FORMS)), balance_int=draw(st.integers(0, 3)) == 0)
 
 
